@@ -29,3 +29,25 @@ static std::string op_st(const Toks &t) {
     return hex(full, 40) + " " + outhex;
 }
 static Reg r_st("ST", op_st);
+
+// STC COPY <state40> <junk40>: ascon_copy into a destination that held something else; STC CLEAN <bytes>: ascon_clean
+#include <ascon/utility.h>
+static std::string op_stc(const Toks &t) {
+    if (t[1] == "COPY") {
+        std::vector<unsigned char> a = unhex(t[2]), j = unhex(t[3]);
+        ascon_state_t src, dst; unsigned char o1[40], o2[40];
+        ascon_init(&src); ascon_overwrite_bytes(&src, a.data(), 0, 40); ascon_release(&src);
+        ascon_init(&dst); ascon_overwrite_bytes(&dst, j.data(), 0, 40); ascon_release(&dst);
+        ascon_copy(&dst, &src);
+        ascon_acquire(&dst); ascon_extract_bytes(&dst, o1, 0, 40); ascon_free(&dst);
+        ascon_acquire(&src); ascon_extract_bytes(&src, o2, 0, 40); ascon_free(&src);
+        return hex(o1, 40) + " " + hex(o2, 40);
+    }
+    if (t[1] == "CLEAN") {
+        Buf b(unhex(t[2]));
+        ascon_clean(b.p, (unsigned)b.n);
+        return b.hx();
+    }
+    return "UNSUPPORTED";
+}
+static Reg r_stc("STC", op_stc);
